@@ -6,6 +6,7 @@ import (
 	"fmt"
 	"net/http"
 	"net/url"
+	"regexp"
 	"strings"
 
 	"connectrpc.com/vanguard"
@@ -209,6 +210,8 @@ func fieldJSON(m proto.Message, path string) string {
 	return ""
 }
 
+var c07CanonicalPath = regexp.MustCompile(`^(?:[-_.~/0-9A-Za-z]|%[0-9A-Fa-f]{2})*$`)
+
 func init() {
 	cases := c07RestCases()
 	restToRPC := func(c *xplor.Ctx) {
@@ -309,10 +312,10 @@ func init() {
 	// ---- RPC -> REST -> RPC through two chained transcoders
 	chainMsgs := map[string][]string{
 		"Unary":  msgAlphabet,
-		"Pure":   {`{"name":"n"}`, `{"name":"a b/c%2F+é","num":-7,"extraText":"q&a=1#x","tags":["","t 1","t&2"],"nums":[0,-1],"seq":"9223372036854775807","raw":"AP8="}`, `{"name":"x","pv":{"doubleValue":"NaN","int64Value":"-5","enumValue":"ENUM_VALUE","doubleList":[1.5,"Infinity"],"timestamp":"2024-02-29T23:59:59.5Z","duration":"-1.500s","fieldMask":"a,b","boolValueWrapper":false,"stringValueWrapper":"","bytesValue":"/+8="}}`, `{"name":"y","child":{"name":"deep","child":{"num":3,"tags":["z"]}}}`},
+		"Pure":   {`{"name":"n"}`, `{"name":"isbn:123"}`, `{"name":"a$b&c+d=e@f,g;h!i*j'(k)","num":1}`, `{"name":"x:act"}`, `{"name":"a b/c%2F+é","num":-7,"extraText":"q&a=1#x","tags":["","t 1","t&2"],"nums":[0,-1],"seq":"9223372036854775807","raw":"AP8="}`, `{"name":"x","pv":{"doubleValue":"NaN","int64Value":"-5","enumValue":"ENUM_VALUE","doubleList":[1.5,"Infinity"],"timestamp":"2024-02-29T23:59:59.5Z","duration":"-1.500s","fieldMask":"a,b","boolValueWrapper":false,"stringValueWrapper":"","bytesValue":"/+8="}}`, `{"name":"y","child":{"name":"deep","child":{"num":3,"tags":["z"]}}}`},
 		"Idem":   {`{"name":"k","child":{"name":"c","nums":[1]}}`, `{"name":"k/2","child":{},"num":3,"tags":["a"]}`, `{"name":"é","extraText":"e"}`},
-		"Multi":  {`{"name":"a"}`, `{"name":"a/b/c"}`, `{"name":"a%2Fb/c d","num":1}`, `{"name":"é/😀"}`},
-		"Nested": {`{"child":{"name":"cn"},"tags":["a","b"]}`, `{"child":{"name":"c/n","num":4},"tags":[],"name":"top"}`},
+		"Multi":  {`{"name":"a"}`, `{"name":"a:b/c$d"}`, `{"name":"a/b/c"}`, `{"name":"a%2Fb/c d","num":1}`, `{"name":"é/😀"}`},
+		"Nested": {`{"child":{"name":"cn"},"tags":["a","b"]}`, `{"child":{"name":"c:n"},"tags":["t"]}`, `{"child":{"name":"x:act"},"tags":[]}`, `{"child":{"name":"c/n","num":4},"tags":[],"name":"top"}`},
 		"Scalar": {`{"child":{"child":{"name":"x/leaf"}},"num":-12}`, `{"child":{"child":{"name":"x/a%b"}},"num":0,"name":"n"}`},
 		"Blob":   {`{"name":"f","body":{"contentType":"image/png","data":"iVBORwD/"}}`, `{"name":"g","num":2,"body":{"contentType":"","data":""}}`},
 	}
@@ -397,6 +400,16 @@ func init() {
 		// direction 2: what the REST backend received re-parses under the same rule to the original
 		u, _ := url.ParseRequestURI(mid.URL)
 		if u != nil {
+			// google.api.http: in a path, everything outside [-_.~0-9a-zA-Z] (and "/" for
+			// multi-segment variables) is percent-encoded; the only other characters a path
+			// may contain are the template's own literals (the ":" of a verb)
+			ep := u.EscapedPath()
+			if i := strings.LastIndex(rule.tmpl, ":"); i >= 0 && !strings.Contains(rule.tmpl[i:], "}") {
+				ep = strings.TrimSuffix(ep, rule.tmpl[i:])
+			}
+			if !c07CanonicalPath.MatchString(ep) {
+				c.Fail("C07.rest-path-not-canonically-escaped", "%s\n REST backend got %s: the path carries reserved characters unescaped", desc, restDesc)
+			}
 			back, berr := refbind.Bind(rule.ref(), world.MsgDesc(), wire.NewMessage, u.EscapedPath(), u.RawQuery, mid.Header.Get("Content-Type"), mid.Body)
 			if berr != nil || !MsgEqual(normEmptyMsgs(back), normEmptyMsgs(orig)) {
 				c.Fail("C07.rest-request-does-not-reparse", "%s\n REST backend got %s\n which denotes %s (%v)", desc, restDesc, renderMsgs([]proto.Message{back}), berr)
